@@ -84,7 +84,7 @@ abbrev Handle := List String
 
 def taHandle : Handle := ["ta"]
 
-def segOk (s : String) : Bool := s != "" && !(s.contains '\\')
+def segOk (s : String) : Bool := s != "" && s.toList.all (· != '\\')
 
 /-- `<base><handle>/` parsed as an rsync URI; `none` when that is not a valid URI (empty path
 segment, backslash).  The handle `ta` gets the repository base. -/
